@@ -427,6 +427,12 @@ func (v *Verifier) solveAll(results []*FuncResult) {
 				to = 6 // listed findings are expected to fail: do not spend the full limit on them
 			}
 			j.o.Res = solve(q, v.Opts.WorkDir, to, v.Opts.Solvers)
+			if j.o.Res.Verdict == "unknown" && j.o.Res.TimeS < float64(to)/2 {
+				// the solvers gave up or failed to start well before the limit: try once more
+				r2 := solve(q, v.Opts.WorkDir, to, v.Opts.Solvers)
+				r2.TimeS += j.o.Res.TimeS
+				j.o.Res = r2
+			}
 			if j.o.Res.Verdict == "unknown" && !v.knownNames[j.o.Name] {
 				if lean := j.c.buildQueryOpt(j.o, true); lean != text {
 					q2 := &Query{Name: j.o.Name + ".lean", Text: lean}
